@@ -25,6 +25,30 @@ def stamped(ctx, rule, cname, fn, v, dates_ok, market_field):
     return gen[1]
 
 
+def fold_fmt(t):
+    """string formatting with constant string arguments folded into the template: '%s %s' % (d, '21:00:00') == '%s 21:00:00' % d"""
+    if t[0] == 'str':
+        return ('fmt', ('str', t[1].replace('%', '%%')), ('tuple', ()))
+    if not (t[0] == 'fmt' and t[1][0] == 'str' and len(t) > 2 and t[2][0] == 'tuple'):
+        return t
+    parts = t[1][1].split('%s')
+    args = list(t[2][1])
+    if len(parts) != len(args) + 1:
+        return t
+    tmpl, rest = parts[0], []
+    for a, nxt in zip(args, parts[1:]):
+        a = fold_fmt(a) if a[0] == 'fmt' else a
+        if a[0] == 'str':
+            tmpl += a[1].replace('%', '%%') + nxt
+        elif a[0] == 'fmt' and a[1][0] == 'str' and a[2][0] == 'tuple':
+            tmpl += a[1][1] + nxt
+            rest.extend(a[2][1])
+        else:
+            tmpl += '%s' + nxt
+            rest.append(a)
+    return ('fmt', ('str', tmpl), ('tuple', tuple(rest)))
+
+
 def market_time(ctx, qn):
     """decision table of _set_market_time: pre_market -> '14:30:00', else '21:00:00'"""
     fn = ctx.fn(qn)
@@ -45,77 +69,74 @@ def check(ctx):
 
 def schedules(ctx):
     M = ctx.M
-    # ---- weekly
-    c = 'WeeklyRebalance'
-    fn = ctx.fn(c + '._generate_rebalances')
-    ps = summarise(ctx, fn, policy=default_policy)
-    ok1 = len(ps) == 1 and ps[0].outcome == 'return'
-    if ctx.require(ok1 if ok1 else None, 'C13.S1', 'weekly schedule is straight-line', fn.site()):
-        dates = stamped(ctx, 'C13.S1', c, fn, ps[0].value, None, 'pre_market_time')
-        if dates is not None:
-            k = dict(dates[3]) if dates[0] == 'call' else {}
-            args = dates[2] if dates[0] == 'call' else ()
-            st = k.get('start', args[0] if args else None)
-            en = k.get('end', args[1] if len(args) > 1 else None)
-            ok = dates[0] == 'call' and dates[1] == ('ext', 'pandas.date_range') and st == A('self', 'start_date') and en == A('self', 'end_date') and \
-                k.get('freq') == ('fmt', ('str', 'W-%s'), ('tuple', (A('self', 'weekday'),))) and not (set(k) - {'start', 'end', 'freq'})
-            ctx.require(ok, 'C13.S1', "weekly dates = pd.date_range(start, end, freq='W-<weekday>') over the unmodified range", fn.site(), fmt(dates)[:200], key='C13.S1|weekly|range')
-            ctx.sample({'rule': 'C13.S1', 'weekly': fmt(dates)})
-    # weekday guard (S2)
-    fn = ctx.fn(c + '._set_weekday')
-    n = 0
+    # ---- weekly / daily / end of month: decided on the constructor (what ends up in self.rebalances), for both settings of pre_market
+    pkg = ctx.fn('WeeklyRebalance.__init__').path.rsplit('/', 1)[0]
+
+    def pol(caller, callee, depth):
+        return depth <= 6 and (default_policy(caller, callee, depth) or callee.path.startswith(pkg))
+    for c, params in (('WeeklyRebalance', ('start_date', 'end_date')), ('DailyRebalance', ('start_date', 'end_date')), ('EndOfMonthRebalance', ('start_dt', 'end_dt'))):
+        fn = ctx.fn(c + '.__init__')
+        st_, en_ = V(params[0]), V(params[1])
+        for pre in (True, False):
+            ps = normal(summarise(ctx, fn, policy=pol, oracle=Valuation(facts={'pre_market': pre})))
+            if not ctx.require(1 <= len(ps) <= 8 if 1 <= len(ps) <= 8 else None, 'C13.S1', '%s has an accepting construction path (pre_market=%s)' % (c, pre), fn.site(),
+                               [cond_str(p)[:80] for p in ps][:4]):
+                continue
+            for p0 in ps:
+                v = p0.heap.get(A('self', 'rebalances'))
+                if v is not None and v[0] == 'call' and v[1] == ('ext', 'LIST') and len(v[2]) == 1 and v[2][0][0] == 'comp':
+                    v = ('comp', 'list') + v[2][0][2:]
+                if not (v is not None and v[0] == 'comp' and v[1] == 'list' and len(v[3]) == 1 and len(v[3][0][0]) == 1):
+                    ctx.undecided('C13.S1', '%s builds its instants by one comprehension over the dates' % c, fn.site(), fmt(v)[:200] if v else None)
+                    continue
+                (bv,), dates, ifs = v[3][0]
+                ctx.require(not ifs, 'C13.S1', '%s keeps every date of the range (no filter)' % c, fn.site(), [fmt(x) for x in ifs], key='C13.S1|%s|filter' % c)
+                elt = v[2]
+                tm = '14:30:00' if pre else '21:00:00'
+                ok = elt[0] == 'call' and elt[1] == ('ext', 'pandas.Timestamp') and len(elt[2]) == 1 and dict(elt[3]).get('tz') in UTC and set(dict(elt[3])) == {'tz'} and \
+                    fold_fmt(elt[2][0]) == ('fmt', ('str', '%s ' + tm), ('tuple', (bv,)))
+                ctx.require(ok, 'C13.S1', '%s stamps each date with %s UTC when pre_market=%s' % (c, tm[:5], pre), fn.site(), fmt(elt)[:160], key='C13.S1|%s|stamp|%s' % (c, pre))
+                k = dict(dates[3]) if dates[0] == 'call' else {}
+                args = dates[2] if dates[0] == 'call' else ()
+                a0 = k.get('start', args[0] if args else None)
+                a1 = k.get('end', args[1] if len(args) > 1 else None)
+                if c == 'WeeklyRebalance':
+                    wdv = p0.heap.get(A('self', 'weekday'))
+                    up = ('call', ('meth', 'upper'), (V('weekday'),), ())
+                    ctx.require(wdv == up, 'C13.S2', 'the weekday used is the validated (upper-cased) one', fn.site(), fmt(wdv) if wdv else None, key='C13.S2|validated')
+                    fr = k.get('freq') or ZERO
+                    fr_ok = fold_fmt(fr) == ('fmt', ('str', 'W-%s'), ('tuple', (up,)))
+                    if not fr_ok and fr[0] == 'call' and fr[1][0] == 'ext' and fr[1][1].endswith('offsets.Week') and not fr[2]:
+                        # a Week offset anchored on a weekday NUMBER: right iff the number is that of the weekday this path was taken for
+                        known = [x_[3][1] if x_[2] == up else x_[2][1] for x_, v_, _ in p0.conds if v_ and x_[0] == 'cmp' and x_[1] == '==' and up in (x_[2], x_[3])
+                                 and (x_[3] if x_[2] == up else x_[2])[0] == 'str']
+                        n_ = dict(fr[3]).get('weekday')
+                        names = ['MON', 'TUE', 'WED', 'THU', 'FRI', 'SAT', 'SUN']
+                        fr_ok = len(known) == 1 and known[0] in names and n_ == num(names.index(known[0])) and set(dict(fr[3])) == {'weekday'}
+                    ok = dates[0] == 'call' and dates[1] == ('ext', 'pandas.date_range') and a0 == st_ and a1 == en_ and fr_ok and not (set(k) - {'start', 'end', 'freq'})
+                    ctx.require(ok, 'C13.S1', "weekly dates = pd.date_range(start, end, freq='W-<weekday>') over the unmodified range", fn.site(), fmt(dates)[:200], key='C13.S1|weekly|range')
+                elif c == 'DailyRebalance':
+                    ok, why = c12.is_business_daily_range(dates, st_, en_, normalized=True)
+                    ctx.require(ok, 'C13.S1', 'daily dates = the business days of the unmodified range', fn.site(), '%s (%s)' % (fmt(dates)[:160], why), key='C13.S1|daily|range')
+                else:
+                    fr = k.get('freq')
+                    ok = dates[0] == 'call' and dates[1] == ('ext', 'pandas.date_range') and a0 == st_ and a1 == en_ and not (set(k) - {'start', 'end', 'freq'})
+                    ctx.require(ok, 'C13.S1', 'end-of-month dates come from pd.date_range over the unmodified range', fn.site(), fmt(dates)[:200], key='C13.S1|eom|range')
+                    ctx.require(fr in (('str', 'BME'), ('str', 'BM')), 'C13.S1', "end-of-month frequency is the business month end ('BME')", fn.site(),
+                                'freq=%s' % (fmt(fr) if fr else None), key='C13.S1|eom|freq')
+                ctx.sample({'rule': 'C13.S1', 'class': c, 'pre_market': pre, 'instants': fmt(v)[:200]})
+    # weekday guard (S2): decision table of the constructor over weekday names
+    fn = ctx.fn('WeeklyRebalance.__init__')
     for wd in ('MON', 'TUE', 'WED', 'THU', 'FRI', 'SAT', 'SUN', 'XYZ', '', 'MONDAY', 'WEEKDAY'):
-        val = Valuation(strs={'weekday.upper()': wd})
-        ps = summarise(ctx, fn, policy=default_policy, oracle=val)
-        outs = set()
-        for p in ps:
-            if p.outcome == 'raise':
-                outs.add('raise:' + p.state.exc[1])
-            else:
-                outs.add('ok:' + fmt(p.value))
+        val = Valuation(strs={'weekday.upper()': wd}, facts={'pre_market': False})
+        ps = summarise(ctx, fn, policy=pol, oracle=val)
+        outs = {('raise:' + p.state.exc[1]) if p.outcome == 'raise' else 'ok' for p in ps}
         valid = wd in ('MON', 'TUE', 'WED', 'THU', 'FRI')
-        want = {'ok:weekday.upper()'} if valid else {'raise:ValueError'}
-        n += 1
         if len(outs) > 1:
             ctx.undecided('C13.S2', 'the weekday guard is a membership test against a literal set of names', fn.site(), "'%s' -> %s (depends on %s)" % (wd, sorted(outs), sorted(set(val.unknown))[:2]))
             break
-        ctx.require(outs == want, 'C13.S2', "weekday '%s' is %s" % (wd, 'accepted (upper-cased)' if valid else 'rejected with ValueError'), fn.site(), sorted(outs),
+        ctx.require(outs == ({'ok'} if valid else {'raise:ValueError'}), 'C13.S2', "weekday '%s' is %s" % (wd, 'accepted' if valid else 'rejected with ValueError'), fn.site(), sorted(outs),
                     key='C13.S2|weekday|%s' % wd)
-    ps = summarise(ctx, c + '.__init__', policy=no_inline)
-    for p in normal(ps):
-        for fld, want in (('start_date', V('start_date')), ('end_date', V('end_date'))):
-            w = heap_writes(p, fld)
-            ctx.require(len(w) == 1 and w[0].value == want, 'C13.S1', 'WeeklyRebalance keeps %s unmodified' % fld, w[0].site if w else None, key='C13.S1|weekly|%s' % fld)
-        w = heap_writes(p, 'weekday')
-        ok = len(w) == 1 and w[0].value[0] == 'call' and w[0].value[1] == ('fn', 'WeeklyRebalance._set_weekday') and w[0].value[2][1:] == (V('weekday'),)
-        ctx.require(ok, 'C13.S2', 'the weekday used is the validated one', w[0].site if w else None, key='C13.S2|validated')
-    # ---- daily
-    c = 'DailyRebalance'
-    fn = ctx.fn(c + '._generate_rebalances')
-    ps = summarise(ctx, fn, policy=default_policy)
-    ok1 = len(ps) == 1 and ps[0].outcome == 'return'
-    if ctx.require(ok1 if ok1 else None, 'C13.S1', 'daily schedule is straight-line', fn.site()):
-        dates = stamped(ctx, 'C13.S1', c, fn, ps[0].value, None, 'market_time')
-        if dates is not None:
-            ok, why = c12.is_business_daily_range(dates, A('self', 'start_date'), A('self', 'end_date'), normalized=True)
-            ctx.require(ok, 'C13.S1', 'daily dates = the business days of the unmodified range', fn.site(), '%s (%s)' % (fmt(dates)[:160], why), key='C13.S1|daily|range')
-    # ---- end of month
-    c = 'EndOfMonthRebalance'
-    fn = ctx.fn(c + '._generate_rebalances')
-    ps = summarise(ctx, fn, policy=default_policy)
-    ok1 = len(ps) == 1 and ps[0].outcome == 'return'
-    if ctx.require(ok1 if ok1 else None, 'C13.S1', 'end-of-month schedule is straight-line', fn.site()):
-        dates = stamped(ctx, 'C13.S1', c, fn, ps[0].value, None, 'market_time')
-        if dates is not None:
-            k = dict(dates[3]) if dates[0] == 'call' else {}
-            args = dates[2] if dates[0] == 'call' else ()
-            st = k.get('start', args[0] if args else None)
-            en = k.get('end', args[1] if len(args) > 1 else None)
-            fr = k.get('freq')
-            ok = dates[0] == 'call' and dates[1] == ('ext', 'pandas.date_range') and st == A('self', 'start_dt') and en == A('self', 'end_dt') and not (set(k) - {'start', 'end', 'freq'})
-            ctx.require(ok, 'C13.S1', 'end-of-month dates come from pd.date_range over the unmodified range', fn.site(), fmt(dates)[:200], key='C13.S1|eom|range')
-            ctx.require(fr in (('str', 'BME'), ('str', 'BM')), 'C13.S1', "end-of-month frequency is the business month end ('BME')", fn.site(),
-                        'freq=%s' % (fmt(fr) if fr else None), key='C13.S1|eom|freq')
     # ---- buy and hold
     c = 'BuyAndHoldRebalance'
     fn = ctx.fn(c + '._generate_rebalances')
@@ -167,18 +188,6 @@ def schedules(ctx):
         alt = ('list', (T.t_add(sd, ('call', ('ext', 'pandas.tseries.offsets.BDay'), (), ())),))
         ctx.require(T.teq(p.value, exp) or (not biz and T.teq(p.value, alt)), 'C13.S1', 'buy-and-hold: the single instant is the start%s' % ('' if biz else ' + one business day'),
                     fn.site(), fmt(p.value), key='C13.S1|bah|%s' % biz)
-    # ---- S3: the three market-time siblings
-    for q in ('WeeklyRebalance._set_market_time', 'DailyRebalance._set_market_time', 'EndOfMonthRebalance._set_market_time'):
-        market_time(ctx, q)
-    for cname, fld in (('WeeklyRebalance', 'pre_market_time'), ('DailyRebalance', 'market_time'), ('EndOfMonthRebalance', 'market_time')):
-        ps = summarise(ctx, cname + '.__init__', policy=no_inline)
-        for p in normal(ps):
-            w = heap_writes(p, fld)
-            ok = len(w) == 1 and w[0].value[0] == 'call' and w[0].value[1] == ('fn', cname + '._set_market_time') and w[0].value[2][1:] == (V('pre_market'),)
-            ctx.require(ok, 'C13.S3', '%s derives its market time from the pre_market flag' % cname, w[0].site if w else None, key='C13.S3|%s|field' % cname)
-            r = heap_writes(p, 'rebalances')
-            ok = len(r) == 1 and r[0].value[0] == 'call' and r[0].value[1] == ('fn', cname + '._generate_rebalances')
-            ctx.require(ok, 'C13.S1', '%s.rebalances is the generated schedule' % cname, r[0].site if r else None, key='C13.S1|%s|rebalances' % cname)
     # ---- S4: every instant meets a clock event
     table, facts = c12.clock_events(ctx)
     uncond = None
@@ -205,9 +214,12 @@ def schedules(ctx):
     rows = {'buy_and_hold': ('BuyAndHoldRebalance', (A('self', 'start_dt'),)), 'daily': ('DailyRebalance', (A('self', 'start_dt'), A('self', 'end_dt'))),
             'weekly': ('WeeklyRebalance', (A('self', 'start_dt'), A('self', 'end_dt'), A('self', 'rebalance_weekday'))),
             'end_of_month': ('EndOfMonthRebalance', (A('self', 'start_dt'), A('self', 'end_dt')))}
+    def same_module(caller, callee, depth):
+        # factories of a dispatch table live next to the session; the Rebalance classes themselves stay opaque constructor calls
+        return depth <= 4 and callee.path == fn.path and callee.name != '__init__'
     for name in list(rows) + ['fortnightly']:
         val = Valuation(strs={'self.rebalance': name})
-        ps = summarise(ctx, fn, policy=no_inline, oracle=val)
+        ps = summarise(ctx, fn, policy=same_module, oracle=val)
         if name not in rows:
             ctx.require(all(p.outcome == 'raise' and p.state.exc[1] == 'ValueError' for p in ps), 'C13.S4', 'an unknown rebalance frequency is rejected', fn.site(), key='C13.S4|unknown')
             continue
